@@ -12,8 +12,10 @@ import os
 import subprocess
 import sys
 
-base = sys.argv[1]
-only = set(sys.argv[2:])
+FAR = "--far" in sys.argv
+_args = [a for a in sys.argv[1:] if not a.startswith("--")]
+base = _args[0]
+only = set(_args[1:])
 props = {}
 for l in open("/verif/properties.jsonl"):
     d = json.loads(l)
@@ -36,7 +38,7 @@ The code you refactor is the code that implements this property of the system (r
   Code areas involved: {files}
   Mechanisms: {mech}
 
-Your task: produce FOUR DIFFERENT, INDEPENDENT behaviour-preserving refactorings (each its own patch against the clean worktree) of functions that implement the property above - the central ones, not peripheral code. Each should be a realistic clean-up of 5-40 changed lines that a reviewer would accept, and each should use a DIFFERENT technique from this list:
+Your task: produce FOUR DIFFERENT, INDEPENDENT behaviour-preserving refactorings (each its own patch against the clean worktree) of {target} Each should be a realistic clean-up of 5-40 changed lines that a reviewer would accept, and each should use a DIFFERENT technique from this list:
   - extract a helper function or method from a block, or inline a small helper into its only caller
   - introduce an explaining local variable for a sub-expression, or inline a single-use local
   - rename locals / parameters / a private helper consistently
@@ -77,7 +79,18 @@ for pid in claimed:
         fn = next((l for l in lines[1:6] if l.lower().startswith(("function", "functions"))), "")
         earlier.append("  - %s%s" % (title[:120], (" (" + fn[:140] + ")") if fn else ""))
     mech = "; ".join("%s (%s)" % (m["name"], m["where"]) for m in d["anchors"].get("mechanism", []))
-    open("%s/prompt_c%s.txt" % (base, n), "w").write(T.format(
+    target = "functions that implement the property above - the central ones, not peripheral code."
+    if FAR:
+        target = ("the SUPPORTING code that the central functions of the property above call or rely on, NOT the central "
+                  "functions themselves: callees several calls down, constructors (__init__), dunder methods (__eq__, "
+                  "__hash__, __str__), small predicates and accessors of the type representation in src/ir/types.py "
+                  "(has_type_variables, is_*, get_bound_rec, get_name, ...), the built-in type modules of the four languages "
+                  "(src/ir/*_types.py), shared helpers (src/utils.py), base classes (src/transformations/base.py, "
+                  "src/compilers/base.py, src/translators/base.py), helpers of the IR in src/ir/ast.py (Program.get_types, "
+                  "get_abstract_functions, get_callable_functions, get_all_fields, Operator), src/ir/type_utils.py helpers "
+                  "(get_type_hint, get_decl_from_inheritance, _get_available_types, ...) - whichever of these the "
+                  "property's code really depends on.")
+    open("%s/prompt_c%s.txt" % (base, n), "w").write(T.format(target=target, 
         wt=wt, out=out, pid=pid, title=d["title"], statement=d["statement"],
         files=", ".join(d["anchors"]["files"]), mech=mech, earlier="\n".join(earlier) or "  (none)"))
     print(pid, wt)
